@@ -131,7 +131,20 @@ OwnStep ==
   /\ \E h \in Live(S) : MustOwn(S, h) /\ S' = IntoVec(S, h) /\ prog' = Append(prog, [op |-> "into_vec", args |-> <<h>>])
   /\ UNCHANGED <<nops, npass, nh, done>>
 
-Next == OpStep \/ CloneStep \/ DropStep \/ FlagStep \/ BackwardStep \/ ClearStep \/ GradStep \/ OwnStep
+\* GradientDescent::update on one or two live handles (any arrays: leaves, clones of them, results): those that
+\* hold a gradient are replaced by fresh tracked arrays, the slot is emptied, older handles keep what they had
+NUpd == Cardinality({ i \in 1..Len(prog) : prog[i].op = "update" })
+UpdateStep ==
+  /\ Room /\ "update" \in Acts /\ NUpd < 2
+  /\ \E hs \in { <<a>> : a \in Live(S) } \cup { p \in Live(S) \X Live(S) : p[1] # p[2] } :
+     \E lr \in { <<1, 1>>, <<-1, 0>>, <<3, 2>> } :                 \* 1/2, -1, 3/4
+       /\ \A i \in 1..Len(hs) : S.nodes[S.hd[hs[i]].n].kind # "gradview"
+       /\ S' = Update(S, hs, Dy(lr[1], lr[2]), Uid)
+       /\ Clean(S')
+       /\ prog' = Append(prog, [op |-> "update", args |-> hs, lr |-> [m |-> lr[1], e |-> lr[2]]])
+  /\ UNCHANGED <<nops, npass, nh, done>>
+
+Next == OpStep \/ CloneStep \/ DropStep \/ FlagStep \/ BackwardStep \/ ClearStep \/ GradStep \/ OwnStep \/ UpdateStep
 Spec == Init /\ [][Next]_vars
 
 \* only programs that end in an observation of a pass or of ownership are worth running
